@@ -92,6 +92,37 @@ Theorem C01_K_preserved_by_OpUpdateHashes_static :
                  K_b (apply_op s (OpUpdateHashes c hs)) = true.
 Proof. exact K_op_update_static. Qed.
 
+(* The life cycle of an ordinary step.  Step.reset_for_rerun of a LEAF step (no amended outputs,
+   no created steps, no static declarations, no trees; a plan step detaches its declarations,
+   which breaks K on purpose until they are re-declared) preserves K; the transaction at the end
+   of a successful run or skip (update_file_hashes(new_out_hashes, SUCCEEDED) +
+   Step.mark_completed(new_hash)) keeps K for every step and ESTABLISHES it for the completed
+   one, under the protocol hypotheses spelled out in the statement. *)
+From SV Require Import proofs.NoStaleStep proofs.NoStaleComplete proofs.NoStaleExecEnd.
+
+Theorem C01_K_preserved_by_OpResetForRerun_leaf :
+  forall l s, unique_labels s -> single_producer s -> leaf_step l s ->
+    (forall f, In f (file_products_in l is_built (rr_pre l s)) -> producers_not_succ (rr_pre l s) f) ->
+    K_b s = true -> K_b (apply_op s (OpResetForRerun l)) = true.
+Proof. exact K_op_reset_for_rerun_leaf. Qed.
+
+Theorem C01_K_established_by_mark_completed :
+  forall l wd s s', unique_labels s -> single_producer s -> K_b s = true ->
+    (forall k, In k (file_inputs_of_step l s) -> input_ok k s = true) ->
+    (forall f, In f (file_sinks_of_step l s) ->
+               output_ok f s = true \/ In f (file_products_in l is_outdated s)) ->
+    mark_completed l true wd s = Ok s' -> K_b s' = true.
+Proof. exact K_mark_completed_success. Qed.
+
+Theorem C01_K_preserved_by_OpExecEnd_success :
+  forall l hs wd s, unique_labels s -> single_producer s -> out_update hs s -> K_b s = true ->
+    (forall s1, update_file_hashes CSucceeded hs s = Ok s1 ->
+                (forall k, In k (file_inputs_of_step l s1) -> input_ok k s1 = true) /\
+                (forall f, In f (file_sinks_of_step l s1) ->
+                           output_ok f s1 = true \/ In f (file_products_in l is_outdated s1))) ->
+    K_b (apply_op s (OpExecEnd l [] CSucceeded hs true wd)) = true.
+Proof. exact K_op_exec_end_success. Qed.
+
 (* ------------------------------------------------------------------------------------------ *)
 (* Abstract engine (model/Engine.v): static-DAG fragment                                       *)
 (* ------------------------------------------------------------------------------------------ *)
